@@ -227,6 +227,9 @@ def run(tier='quick'):
     _row_existence(prog, cg, eff, chk, B5)
     _lookup_keys(prog, cg, eff, chk, B7, order, cats, lo2, hi2)
     chk.extra['statements'] = len(all_maps)
+    B8 = chk.rule('B8', 'the util helpers that carry nullable columns to optional row fields and back '
+                        '(optional<A> -> optional<B>) yield a value exactly when given one', floor=4)
+    rowrules.optional_lifts(prog, chk, B8)
     return chk.finish('statement-level analysis of the five 2.x table classes: %d statement instances '
                       'parsed from string literals, binds and sinks resolved to row fields through the '
                       'type-checked AST, names resolved against the DDL of all %d 2.x versions' % (
